@@ -497,11 +497,10 @@ func (c *Ctx) idlePredicates(fns []*ssa.Function) []*ssa.Function {
 								for _, in := range sc.Instrs {
 									if cl, ok := in.(ssa.CallInstruction); ok {
 										if h := cl.Common().StaticCallee(); h != nil {
-											eachCall(h, func(ec ssa.CallInstruction) {
-												if c.isEmitOf(ec, "stores/replicator.EventLoadEnd") {
-													used = true
-												}
-											})
+											// the emit may sit one or two helpers further down (idle → flushBuffer)
+											if c.reachesStatic(h, func(ec ssa.CallInstruction) bool { return c.isEmitOf(ec, "stores/replicator.EventLoadEnd") }, 0) {
+												used = true
+											}
 										}
 									}
 								}
